@@ -149,6 +149,8 @@ pub(crate) mod prelude {
             #[cfg(not(feature = "unbounded"))]
             {
                 self.current += _levels;
+                #[cfg(toml_rs_toml_verif)]
+                crate::__verif::on_enter(self.current);
                 if LIMIT <= self.current {
                     return Err(super::error::CustomError::RecursionLimitExceeded);
                 }
@@ -159,6 +161,10 @@ pub(crate) mod prelude {
         pub(crate) fn exit_nested(&mut self, _levels: usize) {
             #[cfg(not(feature = "unbounded"))]
             {
+                #[cfg(toml_rs_toml_verif)]
+                if self.current < _levels {
+                    crate::__verif::on_exit(0);
+                }
                 self.current -= _levels;
             }
         }
